@@ -32,6 +32,7 @@ type Call struct {
 	Arg       string
 	PrevIndex uint64
 	CfgIdxAt  uint64
+	AfterShutdown bool
 }
 
 // Clients drives the workload.
@@ -44,10 +45,12 @@ type Clients struct {
 	wts    []int
 	total  int
 	outstandingVerify []int
+	active int
+	probeN int
 }
 
 func newClients(w *World) *Clients {
-	c := &Clients{w: w, seqNo: make([]int, w.cfg.Clients), outstandingVerify: make([]int, len(w.nodes))}
+	c := &Clients{w: w, seqNo: make([]int, w.cfg.Clients+1), outstandingVerify: make([]int, len(w.nodes))}
 	ks := make([]string, 0)
 	for k := range w.cfg.Ops {
 		ks = append(ks, k)
@@ -115,6 +118,8 @@ func (c *Clients) pickTarget() *Inc {
 
 func (c *Clients) loop(cl int) {
 	w := c.w
+	c.active++
+	defer func() { c.active-- }()
 	for !w.stopClients {
 		simrt.Sleep("client-think", w.cfg.ClientThink+time.Duration(w.ch.Choose(simrt.SWork, 1+int(w.cfg.ClientThink/time.Microsecond)))*time.Microsecond)
 		if w.stopClients {
@@ -151,6 +156,10 @@ func (c *Clients) do(cl int, kind string, inc *Inc) *Call {
 	}
 	r := inc.r
 	c.nextID++
+	if cl < 0 {
+		cl = len(c.seqNo) - 1
+		c.probeN++
+	}
 	c.seqNo[cl]++
 	call := &Call{ID: c.nextID, Client: cl, Kind: kind, Node: inc.node.idx, Inc: inc.n, TermAt: r.CurrentTerm()}
 	timeout := time.Duration(0)
@@ -213,9 +222,11 @@ func (c *Clients) do(cl int, kind string, inc *Inc) *Call {
 			}
 			return err
 		}
-	case "transfer":
+	case "transfer", "transfer-any":
+		call.Kind = "transfer"
+		anyTarget := kind == "transfer-any"
 		run = func() error {
-			if w.ch.Choose(simrt.SWork, 2) == 0 {
+			if anyTarget || w.ch.Choose(simrt.SWork, 2) == 0 {
 				return r.LeadershipTransfer().Error()
 			}
 			t := w.nodes[w.ch.Choose(simrt.SWork, len(w.nodes))]
